@@ -96,9 +96,26 @@ fn main() {
 /// Re-run one explicit case under its property's oracle: (clause, detail) list.
 fn replay(rf: &ReplayFile) -> Vec<(String, String)> {
     match &rf.case {
+        Case::World(w) if rf.property == "C17" => checks::c17::judge_world(w)
+            .into_iter()
+            .filter(|v| v.clause == rf.clause)
+            .map(|v| (v.clause.to_string(), v.detail))
+            .collect(),
+        Case::World(w) if rf.property == "C18" => checks::c18::judge_world(w)
+            .into_iter()
+            .map(|v| (v.clause.to_string(), v.detail))
+            .collect(),
+        Case::World(w) if rf.property == "C13" => checks::c13::judge_world(w)
+            .into_iter()
+            .map(|v| (v.clause.to_string(), v.detail))
+            .collect(),
         Case::World(w) => {
             let own: &[&str] = checks::own_clauses(rf.property.as_str());
-            let r = world::run_world(w);
+            let mut r = world::run_world(w);
+            if let Some(j) = checks::extra_judge(rf.property.as_str()) {
+                let more = j(w, &r);
+                r.violations.extend(more);
+            }
             r.violations
                 .into_iter()
                 .filter(|v| own.is_empty() || own.contains(&v.clause))
